@@ -683,6 +683,7 @@ def sc_cg(V, P, cfg):
         tol = NormVal.make(tol_t * tol_t)
         for s2 in _sqnorm_cols(b):
             V.assume(s2 > 0, "CG: no zero right-hand-side column (the code divides by |b|)")
+            V.c.mark_positive(z3.simplify(s2.n))        # sign of the divisor |b|^2 known: no sign case split in comparisons
     else:
         tol = tol_t
     if cfg["prec"] == "jacobi":
@@ -721,15 +722,17 @@ def sc_cg(V, P, cfg):
         P.holds("cg:norm-calls-paired", len(spy) % 2 == 0 and len(spy) >= 2, kind="cg:invariant")
         if rs:
             P.arrays_eq("cg:invariant r==b-op(A)x", np.asarray(rs[-1]).reshape(n, ncol), res, kind=k + ":invariant")
-        # (2) returned without the max-iteration warning  =>  |b - op(A) x|^2 <= tol^2 |b|^2 for every column
-        if not warned:
-            r2, b2 = _sqnorm_cols(res), _sqnorm_cols(np.asarray(b).reshape(n, ncol))
-            for j in range(ncol):
-                P.holds("cg:converged-claim[%d]" % j, r2[j] <= tol_t * tol_t * b2[j], kind=k + ":converged")
-        else:
-            r2, b2 = _sqnorm_cols(res), _sqnorm_cols(np.asarray(b).reshape(n, ncol))
-            P.holds("cg:warning-only-if-not-converged", _any_true([r2[j] > tol_t * tol_t * b2[j] for j in range(ncol)]),
-                    kind=k + ":warning")
+        # (2) what the code tested last: returned without the max-iteration warning  =>  |r|^2 <= tol^2 |b|^2 for every
+        #     column of that r, and a warning only if some column is above the tolerance.  With (1) this is the claim
+        #     |b - op(A) x|^2 <= tol^2 |b|^2 for the returned x (squares, no sqrt; the code divides by |b|).
+        if rs:
+            r2, b2 = _sqnorm_cols(np.asarray(rs[-1]).reshape(n, ncol)), _sqnorm_cols(np.asarray(b).reshape(n, ncol))
+            if not warned:
+                for j in range(ncol):
+                    P.holds("cg:converged-claim[%d]" % j, r2[j] / b2[j] <= tol_t * tol_t, kind=k + ":converged")
+            else:
+                P.holds("cg:warning-only-if-not-converged", _any_true([r2[j] / b2[j] > tol_t * tol_t for j in range(ncol)]),
+                        kind=k + ":warning")
     return obs
 
 
@@ -1013,6 +1016,9 @@ MAX_PATHS = dict(auto=400, cg=60, orth=60, ldl=40)
 
 
 def run_item(cfg, tier):
+    # z3's sum-of-monomials normaliser stops expanding when a polynomial grows more than `som_blowup` times (default 10);
+    # the cross-multiplied identities of SOR / CG exceed that although they normalise to 0 within a second
+    z3.set_param("rewriter.som_blowup", 100000)
     return symbolic_run(SCEN[cfg["kind"]], cfg, tier, max_paths=MAX_PATHS.get(cfg["kind"], 20))
 
 
